@@ -244,6 +244,16 @@ impl Subject {
         self.pre_op_clock();
         let log = self.log.as_mut().unwrap();
         match op {
+            COp::Create(q) if q.len() > 65535 => {
+                // outside the API's domain: the crate refuses by panicking (before it has written
+                // anything); an error would do as well; `Created` would not
+                let r = std::panic::catch_unwind(std::panic::AssertUnwindSafe(|| log.create_queue(q)));
+                match r {
+                    Err(_) | Ok(Err(CreateQueueError::IoError(_))) => (Outcome::Err(ErrKind::NameTooLong), None),
+                    Ok(Ok(o)) => (Outcome::Created, Some(o.wal_bytes_written)),
+                    Ok(Err(CreateQueueError::AlreadyExists)) => (Outcome::Err(ErrKind::AlreadyExists), None),
+                }
+            }
             COp::Create(q) => match log.create_queue(q) {
                 Ok(o) => (Outcome::Created, Some(o.wal_bytes_written)),
                 Err(CreateQueueError::AlreadyExists) => (Outcome::Err(ErrKind::AlreadyExists), None),
